@@ -27,7 +27,16 @@ W_ABORT = {"tokens": [1], "seed": 1, "jobs": [
     "schedule": [["submit", 0], ["submit", 1], ["deliver", [[0, "lockin"]]], ["deliver", [[1, "lockin"]]],
                  ["deliver", [[0, "lockout"]]], ["deliver", [[0, "proc"]]], ["deliver", [[1, "lockout"]]],
                  ["deliver", [[0, "doneh"]]], ["exit"]]}
-WITNESSES = [W_RESUBMIT, W_OVERWRITE, W_ABORT]
+# a job whose process was left running by an earlier scheduler, one of its inputs fails meanwhile, a
+# dependent is submitted in that window; then the old process ends well
+W_ADOPT_FAIL = {"tokens": [], "seed": 1, "jobs": [
+    {"cls": "VTask", "name": "d0", "embed": [], "toks": [], "code": 1, "marker": False, "copy_of": None, "adopt": None},
+    {"cls": "VTask", "name": "d1", "embed": [[0, "list"]], "toks": [], "code": 0, "marker": False, "copy_of": None,
+     "adopt": {"code": 0, "done": True}},
+    {"cls": "VTask", "name": "d2", "embed": [[1, "direct"]], "toks": [], "code": 0, "marker": False, "copy_of": None, "adopt": None}],
+    "schedule": [["submit", 0], ["submit", 1], ["deliver", [[0, "lockin"]]], ["deliver", [[0, "lockout"]]],
+                 ["deliver", [[0, "proc"]]], ["deliver", [[0, "doneh"]]], ["submit", 2], ["deliver", [[1, "adopt"]]]]}
+WITNESSES = [W_RESUBMIT, W_OVERWRITE, W_ABORT, W_ADOPT_FAIL]
 
 
 def gen_workload(rng, profile="c06"):
@@ -199,9 +208,7 @@ def oracle_c06(w, trace, report):
                 report(f"C06:final-state-changed:{final[j]}->{o['state']}",
                        f"job {j} was {final[j]} and is {o['state']} after step {si}")
                 final[j] = o["state"]
-            # (while the process left by an earlier run is still running, job.state is not final yet: a
-            #  failed dependency may show ERROR there before the process ends)
-            if final[j] is None and o["state"] in ("DONE", "ERROR") and not (spec.get("adopt") and o["result"] is None):
+            if final[j] is None and o["state"] in ("DONE", "ERROR"):
                 final[j] = o["state"]
             # truthful, and what waiting on the job returns
             ad = spec.get("adopt")
@@ -351,11 +358,18 @@ def oracle_c07(w, trace, report):
             if o["result"] is not None and (o["result"] != "ERROR" or o["failure"] != "DEPENDENCY"):
                 report(f"C07:dependent-not-cancelled:{o['result']}:{o['failure']}",
                        f"job {j} has a failed ancestor and ended {o['result']} / {o['failure']}")
-        elif o["result"] is not None and all(res[k] == "DONE" for k in ups) and not any(w["jobs"][k].get("adopt") for k in ups):
+        elif o["result"] is not None and all(res[k] == "DONE" for k in ups):
             should = "DONE" if spec["code"] == 0 else "ERROR"
             if o["launches"] != 1 or o["result"] != should:
                 report(f"C07:independent-affected:{should}-got-{o['result']}-launches-{o['launches']}",
                        f"job {j} (upstream all DONE) launches={o['launches']} result={o['result']}")
+    # a job whose process is running is not touched by the failure of one of its inputs
+    for si, s in enumerate(trace["steps"]):
+        for j, o in enumerate(s["snap"]["jobs"]):
+            if o is not None and o["registered"] and w["jobs"][j].get("adopt") and o["state"] == "ERROR" \
+                    and [j, "adopt"] in s["snap"]["pending"]:
+                report("C07:running-job-shown-ERROR-by-failed-dependency",
+                       f"after step {si} job {j} is ERROR while the process an earlier run left for it is still running")
     # at rest (nothing ready, nothing pending): every dependent of a failed job has been cancelled, every
     # other job has run to completion, and leaving the experiment is not blocked
     for si, s in enumerate(trace["steps"]):
@@ -470,7 +484,8 @@ def g_case(w, trace, fx):
         jobs.append(f"{{| j_deps := {glist(g_dep(d) for d in deps)}; j_code := {gz(spec['code'])}; "
                     f"j_marker := {gbool(spec['marker'])}; j_ident := {ids[j]}%nat; j_adopt := {g_adopt(spec.get('adopt'))} |}}")
     W = f"{{| w_jobs := {glist(jobs)}; w_tokens := {glist(str(t) + '%nat' for t in w['tokens'])} |}}"
-    F = f"{{| fx2 := {gbool(fx[0])}; fx3 := {gbool(fx[1])}; fx4 := {gbool(fx[2])} |}}"
+    F = (f"{{| fx2 := {gbool(fx[0])}; fx3 := {gbool(fx[1])}; fx4 := {gbool(fx[2])}; fx5 := true; "
+         f"fx6 := {gbool(fx[3])} |}}")
     # (a refused submission changes nothing in the scheduler: it is not a step of the model)
     tr = glist(f"({g_action(s['act'])}, {g_snap(s['snap'])})" for s in trace["steps"] if s["act"][0] != "refused")
     return f"{{| c_w := {W}; c_fx := {F}; c_trace := {tr} |}}"
@@ -480,9 +495,9 @@ CORR_HEADER = ("From Coq Require Import ZArith List Bool.\nFrom XV Require Impor
                "Import ListNotations.\nOpen Scope Z_scope.\n")
 
 
-def probe_fixes(traces3):
-    """which of the three repairs does the implementation contain (read off the directed runs)"""
-    t2, t3, t4 = traces3
+def probe_fixes(traces4):
+    """which of the repairs does the implementation contain (read off the directed runs)"""
+    t2, t3, t4, t6 = traces4
     f2 = not any(s["snap"]["unfinished"] < 0 for s in t2["steps"])
     f3 = not any(o is not None and o["result"] == "READY" for s in t3["steps"] for o in s["snap"]["jobs"])
     # J2 has been put back to sleep (WAITING, nothing pending for it) right after its aborted start
@@ -490,7 +505,10 @@ def probe_fixes(traces3):
     for s in t4["steps"]:
         if s["act"] == ["deliver", [[1, "lockout"]]]:
             f4 = s["snap"]["jobs"][1]["state"] != "WAITING"
-    return (f2, f3, f4)
+    # the job whose old process is still running is shown ERROR when its input has failed
+    f6 = not any(s["snap"]["jobs"][1] is not None and s["snap"]["jobs"][1]["state"] == "ERROR" and
+                 [1, "adopt"] in s["snap"]["pending"] for s in t6["steps"])
+    return (f2, f3, f4, f6)
 
 
 def sample(w, trace):
@@ -537,9 +555,10 @@ def run_sched_check(c, profile, oracles, n_quick, n_thorough, golden_name, rule,
     B = 400
     for i in range(0, len(cases), B):
         traces += run_impl("drive_c06.py", dict(cases=cases[i:i + B]), timeout=1500)
-    fx = probe_fixes(traces[:3])
+    fx = probe_fixes(traces[:4])
     c.extra["repairs_present_in_implementation"] = dict(resubmit_registers=fx[0], ready_only_when_notstarted=fx[1],
-                                                        aborted_start_keeps_ready=fx[2])
+                                                        aborted_start_keeps_ready=fx[2],
+                                                        failed_dependency_spares_running_job=fx[3])
     render = []
     for w, t in zip(cases, traces):
         c.evaluations += 1
@@ -599,7 +618,7 @@ def run_sched_check(c, profile, oracles, n_quick, n_thorough, golden_name, rule,
             render.append((w, t))
         else:
             c.count("not-rendered")
-    c.samples = [sample(w, t) for (w, t) in render[3:6]]
+    c.samples = [sample(w, t) for (w, t) in render[4:7]]
     bad = c.corr_shards("trace", CORR_HEADER, render, lambda p: g_case(p[0], p[1], fx), "check_case", shard=100)
     if profile == "c04":
         dcases = []
